@@ -244,6 +244,11 @@ impl TypedProp for C04 {
         if run.max_pending >= 32 {
             return Verdict::discard("pending>=32");
         }
+        // keyberon searches at most 10 held layers (MAX_ACTIVE_LAYERS - 2): configurations whose
+        // `_` chains stack more layer states than that are outside the unbounded model
+        if run.max_held_layers >= 11 {
+            return Verdict::discard("active-layer-capacity");
+        }
         if let Some(why) = run.out_of_domain {
             // the 64-entry state vector (capacity, known finding F31) is outside the model
             if why == "state-vector-capacity" {
